@@ -1380,3 +1380,58 @@ func (w *c06BitWriter) bytes(n int, pad bool) []byte {
 	}
 	return out
 }
+
+// c06QRShortPayloads: byte-mode segments whose payload is a short, awkward byte string - every
+// single byte, every high lead byte followed by a handful of second bytes, every prefix of the
+// byte-order marks and of multi-byte sequences cut short - without ECI, read under no hints, under
+// PURE_BARCODE and under CHARACTER_SET hints naming supported, registered-but-codec-less and unknown
+// character sets.  Every (payload, hints) pair is parsed twice in a row: the answer to the
+// second call is the answer to the first.
+func c06QRShortPayloads(r *fw.Rec, part int) {
+	var payloads [][]byte
+	switch part {
+	case 0:
+		for b := 0; b < 256; b++ {
+			payloads = append(payloads, []byte{byte(b)})
+		}
+		for _, seq := range [][]byte{{0xEF, 0xBB, 0xBF, 0x41}, {0xFE, 0xFF, 0x00, 0x41}, {0xFF, 0xFE, 0x41, 0x00}, {0xE3, 0x81, 0x82}, {0xF0, 0x9F, 0x98, 0x80}, {0xED, 0xA0, 0x80}, {0xC0, 0x80}, {0xF4, 0x90, 0x80, 0x80}, {0x81, 0x40}, {0xE0, 0x40}, {0x1B, 0x24, 0x42}, {0x2B, 0x2F, 0x76}} {
+			for k := 1; k <= len(seq); k++ {
+				payloads = append(payloads, seq[:k])
+				payloads = append(payloads, append(append([]byte{}, seq[:k]...), 'a'))
+			}
+		}
+	default:
+		for lead := 0x80 + 32*(part-1); lead < 0x80+32*part; lead++ {
+			for _, second := range []byte{0x00, 0x41, 0x7F, 0x80, 0xA1, 0xBB, 0xBF, 0xFE, 0xFF} {
+				payloads = append(payloads, []byte{byte(lead), second})
+			}
+		}
+	}
+	type hv struct {
+		h    map[gozxing.DecodeHintType]interface{}
+		desc string
+	}
+	hintSets := []hv{{nil, "nil"}, {map[gozxing.DecodeHintType]interface{}{gozxing.DecodeHintType_PURE_BARCODE: true}, "PURE_BARCODE"}}
+	for _, name := range []string{"UTF-8", "Shift_JIS", "ISO-8859-1", "GB18030", "UTF-16BE", "TIS-620", "UTF-7", "ISO-2022-KR", "UTF-32", "ISO-8859-11", "foo", ""} {
+		hintSets = append(hintSets, hv{map[gozxing.DecodeHintType]interface{}{gozxing.DecodeHintType_CHARACTER_SET: name}, "CHARACTER_SET=" + name})
+	}
+	for _, p := range payloads {
+		w := &c06BitWriter{}
+		w.put(4, 4)
+		w.put(len(p), 8)
+		for _, b := range p {
+			w.put(int(b), 8)
+		}
+		w.put(0, 4)
+		stream := w.bytes(len(w.bits), true)
+		for _, hs := range hintSets {
+			for call := 1; call <= 2; call++ {
+				if !c06QRParse(r, stream, 1+int(p[0])%9, hs.h, hs.desc, fmt.Sprintf("byte segment %x, call %d with these hints", p, call)) {
+					return
+				}
+			}
+			r.Tally("qr short byte payloads x hint sets (each parsed twice)")
+		}
+	}
+	r.Nontrivial(fmt.Sprintf("qr-short-payloads/%d", part))
+}
